@@ -3,12 +3,15 @@ from props._script import run_script_property
 
 
 def run():
+    from props._script import DEFAULT_KINDS
     chk = run_script_property(
-        "C10", "model_checking",
+        "C10", "model_checking", kinds=DEFAULT_KINDS + ["cli"],
         extra_rule="C10 clauses, evaluated at every mapping and list frame of every nesting level against the options "
                    "the caller requested: strategy none => paired items have equal keys; strategy auto => every shared "
                    "key is paired with itself; list edits off (always / for equal lengths) => positional pairing, only "
-                   "the surplus tail removed or inserted.")
+                   "the surplus tail removed or inserted.  Kind `cli`: the trees are the ones graphtage.__main__.main built for the "
+                   "two files under one of the documented spellings of the option set (-k, --no-key-edits, --dict-strategy S, "
+                   "-ds S, -l, --no-list-edits, -ll, --no-list-edits-when-same-length), in any argument order.")
     return chk.finish()
 
 
